@@ -17,7 +17,7 @@ import (
 // faults and pairs); a record that is returned all the same must still obey the
 // expiry clauses.
 func TestExpiryUnderReadFaults(t *testing.T) {
-	kit.Check(t, 40, 800, func(t *rapid.T) {
+	kit.Check(t, 150, 1600, func(t *rapid.T) {
 		sc := world.DrawScenario(t, []string{"expired", "expired", "stale", "warm-fresh", "ext-rotated"})
 		clone := func(faults ...world.FaultAt) *world.FaultScenario {
 			c := *sc
